@@ -85,8 +85,10 @@ pub mod sync {
     }
     impl<T: ?Sized> Mutex<T> {
         pub fn lock(&self) -> LockResult<std::sync::MutexGuard<'_, T>> {
+            // one scheduling point per call; the retries after `blocked` are not points, so that
+            // the simulator can tell "both callers keep failing" (deadlock) from progress
+            point("mutex.lock");
             loop {
-                point("mutex.lock");
                 match self.inner.try_lock() {
                     Ok(g) => return Ok(g),
                     Err(TryLockError::Poisoned(e)) => return Err(e),
@@ -126,13 +128,20 @@ pub mod sync {
     }
 
     // ---- RwLock --------------------------------------------------------------------------------
+    /// std's RwLock (futex implementation) prefers writers: once a writer waits, new readers
+    /// wait behind it - which is why taking `read()` again while already holding a read guard
+    /// can deadlock ("this function might panic or deadlock when called if the lock is already
+    /// held by the current thread"). The simulator never lets a caller wait inside the real lock,
+    /// so that rule is modelled here: `writers_waiting` counts simulated callers whose `write()`
+    /// found the lock taken; while it is non-zero a simulated `read()` counts as blocked.
     #[derive(Default)]
     pub struct RwLock<T: ?Sized> {
+        writers_waiting: std::sync::atomic::AtomicUsize,
         inner: std::sync::RwLock<T>,
     }
     impl<T> RwLock<T> {
         pub const fn new(t: T) -> RwLock<T> {
-            RwLock { inner: std::sync::RwLock::new(t) }
+            RwLock { writers_waiting: std::sync::atomic::AtomicUsize::new(0), inner: std::sync::RwLock::new(t) }
         }
         pub fn into_inner(self) -> LockResult<T> {
             self.inner.into_inner()
@@ -140,8 +149,14 @@ pub mod sync {
     }
     impl<T: ?Sized> RwLock<T> {
         pub fn read(&self) -> LockResult<std::sync::RwLockReadGuard<'_, T>> {
+            point("rwlock.read");
             loop {
-                point("rwlock.read");
+                if self.writers_waiting.load(std::sync::atomic::Ordering::SeqCst) > 0 {
+                    // a writer is queued: a new reader waits behind it
+                    if blocked("rwlock.read") {
+                        continue;
+                    }
+                }
                 match self.inner.try_read() {
                     Ok(g) => return Ok(g),
                     Err(TryLockError::Poisoned(e)) => return Err(e),
@@ -154,13 +169,32 @@ pub mod sync {
             }
         }
         pub fn write(&self) -> LockResult<std::sync::RwLockWriteGuard<'_, T>> {
+            let mut queued = false;
+            let unqueue = |q: bool| {
+                if q {
+                    self.writers_waiting.fetch_sub(1, std::sync::atomic::Ordering::SeqCst);
+                }
+            };
+            point("rwlock.write");
             loop {
-                point("rwlock.write");
                 match self.inner.try_write() {
-                    Ok(g) => return Ok(g),
-                    Err(TryLockError::Poisoned(e)) => return Err(e),
+                    Ok(g) => {
+                        unqueue(queued);
+                        return Ok(g);
+                    }
+                    Err(TryLockError::Poisoned(e)) => {
+                        unqueue(queued);
+                        return Err(e);
+                    }
                     Err(TryLockError::WouldBlock) => {
+                        if !queued {
+                            queued = true;
+                            self.writers_waiting.fetch_add(1, std::sync::atomic::Ordering::SeqCst);
+                        }
+                        // (a deadlock ends in a panic raised inside `blocked`: the count is then
+                        // left raised, as a really queued writer would stay queued)
                         if !blocked("rwlock.write") {
+                            unqueue(queued);
                             return self.inner.write();
                         }
                     }
